@@ -49,21 +49,31 @@ def record(cases: dict) -> dict:
 
     c = Codec(cases["segs"])
     acc, rel, res, rej = [], [], [], []
-    for p in cases["names"]:
-        u = PackURI(c.name(p))
+    def safe(fn, bad):
         try:
-            idx = u.idx
-            idx = -1 if idx is None else idx
-        except Exception:
-            idx = -2
-        ru = str(u.rels_uri)
-        rparts = ru[1:].split("/")
-        fn = rparts[-1]
-        rels = {"dir": [c.seg(x) for x in rparts[:-2]], "mid": rparts[-2] if len(rparts) >= 2 else "",
-                "of": (0 if fn == ".rels" else c.seg(fn[:-5])) if fn.endswith(".rels") else 99}
-        member = u.membername
-        acc.append({"p": p, "dir": c.parse_name(u.baseURI), "file": c.seg(u.filename) if u.filename else 0,
-                    "ext": u.ext, "idx": idx,
+            return fn()
+        except Exception:           # an accessor that raises reports a value no specification record holds
+            return bad
+    for p in cases["names"]:
+        u = safe(lambda: PackURI(c.name(p)), None)
+        if u is None:
+            acc.append({"p": p, "dir": [97], "file": 97, "ext": "!raised", "idx": -2, "member": [97], "rels": {"dir": [97], "mid": "!raised", "of": 97}})
+            continue
+        idx = safe(lambda: u.idx, -2)
+        idx = -1 if idx is None else idx
+        ru = safe(lambda: str(u.rels_uri), None)
+        if ru is None:
+            rels = {"dir": [97], "mid": "!raised", "of": 97}
+        else:
+            rparts = ru[1:].split("/")
+            fn = rparts[-1]
+            rels = {"dir": [c.seg(x) for x in rparts[:-2]], "mid": rparts[-2] if len(rparts) >= 2 else "",
+                    "of": (0 if fn == ".rels" else c.seg(fn[:-5])) if fn.endswith(".rels") else 99}
+        member = safe(lambda: u.membername, "!raised")
+        base = safe(lambda: u.baseURI, None)
+        fname = safe(lambda: u.filename, None)
+        acc.append({"p": p, "dir": c.parse_name(base) if base is not None else [97], "file": (c.seg(fname) if fname else 0) if fname is not None else 97,
+                    "ext": safe(lambda: u.ext, "!raised"), "idx": idx,
                     "member": ([c.seg(x) for x in member.split("/")] if member else []), "rels": rels})
     for k, (b, q) in enumerate(cases["pairs"]):
         bs, qs = c.name(b), c.name(q)
